@@ -224,6 +224,9 @@ func (v *View) entry(n *Node, slot common.Slot) *Entry {
 	return &Entry{v: v, node: n, slot: slot, st: st, epc: epc}
 }
 
+// fresh: the context of the entry's state computed from the state alone (see World.FreshContext).
+func (e *Entry) fresh() *common.EpochsContext { return e.v.W.FreshContext(e.st, e.epc) }
+
 func (e *Entry) Step() common.Step               { return common.AsStep(e.slot, e.slot == e.node.Slot) }
 func (e *Entry) BlockRoot() (common.Root, error) { return e.node.Root, nil }
 func (e *Entry) ParentRoot() (common.Root, error) {
